@@ -288,7 +288,16 @@ def gen_message(rng, allow_malformed=True):
     if m.method == 'get':
         m.method = 'GET'
     m.version = 'HTTP/1.0' if rng.random() < 0.12 else 'HTTP/1.1'
-    m.code = rng.choice([200, 200, 200, 200, 404, 301, 500, 206, 100, 101, 199, 204, 304, 304])
+    # the status code is a dimension of its own: the common ones, every code the no-body rule or
+    # its neighbours concern (1xx, 204, 205, 304 and what lies next to them), and any code 100..599
+    r = rng.random()
+    if r < 0.35:
+        m.code = 200
+    elif r < 0.8:
+        m.code = rng.choice([201, 202, 203, 204, 204, 205, 205, 206, 300, 301, 302, 303, 304, 304, 305, 307, 400, 401, 404,
+                             410, 416, 500, 502, 503, 100, 101, 102, 199])
+    else:
+        m.code = rng.randrange(100, 600)
     sv = rng.choice([b'HTTP/1.1', b'HTTP/1.1', b'HTTP/1.0', b'HTTP/1.1', b'HTTP/2.0', b'HTTP/12.34'])
     sep1 = rng.choice([b' ', b' ', b' ', b'  ', b'\t'])
     sep2 = rng.choice([b' ', b' ', b'', b'  ', b'\t'])
@@ -680,6 +689,14 @@ def real_session_sequence(exchanges, recorder_params=None, keep_alive=True, igno
 
 
 # ------------------------------------------------------------------ independent strict WARC reader
+class WarcFormatError(ValueError):
+    """The file is not a sequence of records delimited by their declared Content-Length."""
+
+    def __init__(self, msg, rtype=None, index=None):
+        ValueError.__init__(self, msg)
+        self.rtype, self.index = rtype, index
+
+
 def read_warc(path):
     """Records of an (uncompressed or per-record gzip) WARC file: list of (fields dict, block bytes).
     Strict: 'WARC/1.0' first line, CRLF field lines, Content-Length, block, CRLF CRLF."""
@@ -696,18 +713,27 @@ def read_warc(path):
     records = []
     pos = 0
     while pos < len(raw):
-        end = raw.index(b'\r\n\r\n', pos)
-        lines = raw[pos:end].split(b'\r\n')
-        if lines[0] != b'WARC/1.0':
-            raise Infra('WARC reader: bad record start %r' % lines[0][:40])
+        prev = records[-1][0].get('warc-type') if records else None
+        end = raw.find(b'\r\n\r\n', pos)
+        lines = raw[pos:end].split(b'\r\n') if end >= 0 else [raw[pos:pos + 40]]
+        if end < 0 or lines[0] != b'WARC/1.0':
+            # the previous record's declared length did not lead to a record start
+            raise WarcFormatError('record %d does not start with WARC/1.0 (%r): the %s record before it has a wrong '
+                                  'Content-Length' % (len(records), lines[0][:30], prev), prev, len(records) - 1)
         fields = {}
         for l in lines[1:]:
             n, _, v = l.partition(b':')
             fields[n.decode('latin-1').lower()] = v.strip().decode('latin-1')
-        n = int(fields['content-length'])
+        rtype = fields.get('warc-type')
+        try:
+            n = int(fields['content-length'])
+        except (KeyError, ValueError):
+            raise WarcFormatError('record %d (%s) has no usable Content-Length' % (len(records), rtype), rtype, len(records))
         block = raw[end + 4:end + 4 + n]
         if len(block) != n or raw[end + 4 + n:end + 8 + n] != b'\r\n\r\n':
-            raise Infra('WARC reader: record framing broken at %d' % pos)
+            raise WarcFormatError('record %d (%s): the %d bytes declared by Content-Length are not followed by the record '
+                                  'terminator (%d bytes left in the file)' % (len(records), rtype, n, len(raw) - end - 4),
+                                  rtype, len(records))
         records.append((fields, block))
         pos = end + 8 + n
     return records
